@@ -11,12 +11,9 @@ MANIFEST = dict(
     technique="Lean 4 proof over a model with schemas and call-site table regenerated from source + three-way differential run + execution of the library's serialisers",
     design="5/C10",
 )
-GEN = ["Schemas", "DumpSites", "Builders"]
-THEOREMS = [
-    "c10_translated",
-    "c10_lossless",
-    "c10_added_are_defaults",
-    "c10_dump_sites_use_wire_names",
+GEN = ["Schemas", "DumpSites"]
+SUPP_GEN = ["Builders"]
+SUPP_THEOREMS = [
     "c10_builders_fit_schemas",
     "c10_names_apart",
     "c10_construct_by_attribute_names",
@@ -24,6 +21,12 @@ THEOREMS = [
     "c10_helpers_emit_wire_form",
     "c10_parse_tables_fit_schemas",
     "c10_parse_dispatch_lossless",
+]
+THEOREMS = [
+    "c10_translated",
+    "c10_lossless",
+    "c10_added_are_defaults",
+    "c10_dump_sites_use_wire_names",
 ]
 RULE = (
     "lossless: every protocol class x every optional-member subset (<=4; seeded beyond) x extras {none, random, "
@@ -68,14 +71,18 @@ def lossless_oracle(case, o):
                 # REUSE / other wire forms of the same view: the JSON text form, model_dump_mcp, a second
                 # dump, a second validation of the same dict, validation of the instance itself — each
                 # must be the same lossless value; validation must leave the caller's dict untouched
-                forms = {k: (b.get("variants") or {}).get(k) for k in ("json", "mcp", "again") if k in (b.get("variants") or {})}
-                for k in ("second", "from_instance"):
+                forms = {k: (b.get("variants") or {}).get(k) for k in ("json", "mcp", "again", "after_edit_of_dump", "after_edit_of_plain_dump")
+                         if k in (b.get("variants") or {})}
+                for k in ("second", "from_instance", "fresh_after_instances_edited", "value_subclasses", "enum_members"):
                     if k in b:
                         forms[k] = b[k]
                 for k, v in sorted(forms.items()):
                     if not schema_h.same(v, b["dump"]):
                         r = lossless(S, t, case["wire"], v) or ("wire-form-not-repeatable", f"form '{k}' is {str(v)[:120]}")
                         r = (r[0], f"[{k}] {r[1]}")
+                        if k in ("value_subclasses", "enum_members"):
+                            # the same object with str / int values of a SUBCLASS type (marker types, enum members)
+                            r = ("subclass-value-changes-the-view", f"[{k}] {str(v)[:160]}")
                         break
                 if r is None and b.get("input_intact") is False:
                     r = ("input-modified", "validation changed the caller's dict")
